@@ -413,10 +413,16 @@ def run(rep):
             rep.validated_runs(1)
             if bad:
                 rep.finding('C10/%s/%s' % (k, cls), dict(kind=kind, negate=neg), detail, kernel=k)
+    from checks import C08
+    C08.membership_kernel(rep, 'C10')
     rep.not_decided += ['wcslib projection arithmetic', 'FITS I/O of mask_file/mask_catalog (astropy)']
 
 
 def replay(w):
+    if w['witness'].get('kind') == 'membership':
+        from checks import C08
+        bad, cls, detail = C08.replay_case(w['witness'])
+        return bad, '%s: %s' % (cls, detail)
     wit = w['witness']
     fn = {'plane': oracle_plane, 'file': oracle_file}.get(wit.get('kind'), oracle_table)
     bad, cls, detail = fn(negate=bool(wit.get('negate')))
